@@ -12,7 +12,8 @@ For every entry of `tie_specs.BY_PROPERTY[pid]` one Lean file `lean/.lake/tie/<p
       FLOAT  `#eval` of the generated definition at `Float` on random doubles; compared bit for bit with the REAL Python
              function imported from `repo` (run in a separate interpreter) — the translator's self-check.
 The file is elaborated with `lake env lean --json` (no build, no lock); every message is attributed to a block by line.
-Status per function: "proved" | "unproved" | "untranslatable" | "translator-mismatch" (Float self-check failed).
+Status per function: "proved" | "proved(no-float-selfcheck)" (the Float self-check could not run: worker import error,
+FLOAT block not elaborating) | "unproved" | "untranslatable" | "translator-mismatch" (Float self-check failed).
 `python3 harness/tie.py C18 [--seed N] [--repo DIR]` prints the dict.
 """
 from __future__ import annotations
@@ -36,7 +37,7 @@ import pytrans          # noqa: E402
 import tie_specs        # noqa: E402
 
 ALLOWED_AXIOMS = {"propext", "Classical.choice", "Quot.sound"}
-N_RAT_POOL, N_RAT_RANDOM, N_FLOAT = 600, 200, 60
+N_RAT_POOL, N_RAT_RANDOM, N_FLOAT, N_FLOAT_SPECIAL = 600, 200, 60, 40
 LEAN_TIMEOUT = 300
 PYTHON = "/venv/bin/python" if os.path.exists("/venv/bin/python") else sys.executable
 
@@ -203,6 +204,32 @@ def related_rect(src: Source, a: dict, tols: list, positive: bool):
     return b
 
 
+SPECIAL_ANY = [0.0, -0.0, float("inf"), float("-inf"), float("nan"), 5e-324, -5e-324, 2.2250738585072014e-308,
+               -2.2250738585072014e-308, 1e-300, 1e200, -1e200, 1e308, -1e308, 1.7976931348623157e308]
+SPECIAL_POS = [5e-324, 2.2250738585072014e-308, 1e-300, 1e200, 1e308, 1.7976931348623157e308, float("inf")]
+SPECIAL_TOL = [0.0, 5e-324, 1e-300, 1e308, float("inf")]
+
+
+def add_specials(envs: list, vars_: list, rng: random.Random, prob: float) -> list:
+    """Float stream only: replace scalars by ±0.0, ±inf, NaN, denormals and huge values (sides of rectangles stay positive
+    and tolerances non-negative: class invariant / `distance_epsilon()` asserts it)."""
+    def sub(v, pool):
+        return rng.choice(pool) if rng.random() < prob else v
+    for env in envs:
+        for name, ty in vars_:
+            v = env.get(name)
+            if ty == "S":
+                tol = name.startswith("eps") or name == "epsilon"
+                env[name] = sub(v, SPECIAL_TOL if tol else SPECIAL_ANY)
+            elif ty == "Rect":
+                v.update(cx=sub(v["cx"], SPECIAL_ANY), cy=sub(v["cy"], SPECIAL_ANY),
+                         w=sub(v["w"], SPECIAL_POS), h=sub(v["h"], SPECIAL_POS))
+            elif ty in ("Point", "Shape"):
+                for k in v:
+                    v[k] = sub(v[k], SPECIAL_POS if ty == "Shape" else SPECIAL_ANY)
+    return envs
+
+
 def gen_inputs(vars_: list, rng: random.Random, n: int, exact: bool, wild: bool, positive: bool) -> list:
     """n assignments of the typed variables.  Scalars are mostly drawn from a pool of values that matter for the
     rectangles already drawn (their bounds, centres, sides, differences of bounds) so that guards are hit exactly."""
@@ -214,7 +241,8 @@ def gen_inputs(vars_: list, rng: random.Random, n: int, exact: bool, wild: bool,
             if ty == "S" and (name.startswith("eps") or name == "epsilon"):
                 env[name] = src.tol()
                 tols.append(env[name])
-        pool = [src.num(Fraction(0)), src.num(Fraction(-1)), src.num(Fraction(1))]
+        pool = [src.num(Fraction(0)), src.num(Fraction(-1)), src.num(Fraction(1)), src.num(Fraction(-2000)),
+                src.num(Fraction(3000))]
         scalars = []
         for name, ty in vars_:
             if name in env or ty == "Fops":
@@ -383,9 +411,8 @@ for job in req["jobs"]:
         try:
             extras = {k: hex2f(inp[k]) for k in job["needs"] if k != "Fops"}
             if extras:
-                G.Rectangle.set_epsilon(extras.get("eps", 0.0), extras.get("epsA", 0.0))
-                if "eps" not in extras: G.Rectangle._distance_epsilon = -1.0
-                if "epsA" not in extras: G.Rectangle._area_epsilon = -1.0
+                G.Rectangle._distance_epsilon = extras.get("eps", -1.0)
+                G.Rectangle._area_epsilon = extras.get("epsA", -1.0)
             args = [build(inp[n], t) for n, t in job["params"]]
             try:
                 if job["py_env"] is not None:      # nested function / single expression: the source text itself
@@ -405,7 +432,7 @@ for job in req["jobs"]:
                 if job["effect"]: v = {"some": v} if job["monad"] == "Option" else {"ok": v}
             except AssertionError:
                 v = None if (job["effect"] and job["monad"] == "Option") else {"exc": "AssertionError"}
-            except (ZeroDivisionError, ValueError) as ex:
+            except (ZeroDivisionError, ValueError, OverflowError) as ex:
                 v = {"err": type(ex).__name__} if (job["effect"] and job["monad"] == "Except") else {"exc": type(ex).__name__}
         except Exception as ex:
             v = {"exc": repr(ex)}
@@ -534,7 +561,9 @@ def _run(pid: str, repo: str, seed: int, only: list | None = None) -> dict:
                 (fn.kind == "expr" or fn.free) and "py_env" not in e:
             continue
         fins = gen_inputs(fvars, rng, N_FLOAT // 2, exact=False, wild=False, positive=True) + \
-            gen_inputs(fvars, rng, N_FLOAT - N_FLOAT // 2, exact=False, wild=True, positive=True)
+            gen_inputs(fvars, rng, N_FLOAT - N_FLOAT // 2, exact=False, wild=True, positive=True) + \
+            add_specials(gen_inputs(fvars, rng, N_FLOAT_SPECIAL, exact=False, wild=False, positive=True),
+                         fvars, rng, e.get("float_special", 0.35))
         float_inputs[name] = fins
         call = " ".join([f"Gen.{fn.lean}"] + [pytrans.lname(x) for x, _ in fvars])
         fb.add(f"-- BEGIN FLOAT {name}\n#eval FV.Tie.evalRun \"{name}\" \"{input_string(fins, fvars, f2hex)}\" (do\n"
@@ -667,9 +696,11 @@ def _run(pid: str, repo: str, seed: int, only: list | None = None) -> dict:
                                                                        else py_res.get("_error", "no result")[:300]])[0]
             else:
                 # a zero divisor is outside what the non-`Except` translation models (documented in pytrans.py)
-                zd = [i for i in range(len(real)) if real[i] == {"exc": "ZeroDivisionError"} and mode.monad != "Except"]
+                # and CPython's OverflowError of `x ** 2` (libm pow returns inf) is not modelled in any mode
+                zd = [i for i in range(len(real)) if (real[i] == {"exc": "ZeroDivisionError"} and mode.monad != "Except")
+                      or real[i] in ({"exc": "OverflowError"}, {"err": "OverflowError"})]
                 if zd:
-                    info["float_zero_division_inputs_skipped"] = len(zd)
+                    info["float_inputs_outside_model_skipped"] = len(zd)
                 bad = [(i, real[i], vals[i]) for i in range(len(real)) if real[i] != vals[i] and i not in zd]
                 if bad:
                     i, rv, gv = bad[0]
@@ -681,6 +712,10 @@ def _run(pid: str, repo: str, seed: int, only: list | None = None) -> dict:
                                        "function: the translator (or one of its documented assumptions) is wrong here")
                 else:
                     info["float_selfcheck"] = "ok"
+        if e.get("aux"):
+            info["float_selfcheck"] = "n/a"           # a constant (default argument): nothing to execute
+        elif info["float_selfcheck"] == "skipped" and info["status"] == "proved":
+            info["status"] = "proved(no-float-selfcheck)"
     result["wall_s"] = round(time.time() - t0, 2)
     return result
 
